@@ -34,7 +34,7 @@ TOTALS = [1.0, 37.5, None]
 
 def bounds(tier):
     return {'structures': '16 of 64' if tier == 'quick' else 'all 64', 'iterations': ITERS, 'totals': TOTALS,
-            'solvers': ['MD', 'RDA', 'IG'], 'zeros': ['none', 'one cell'], 'inputs': ['noisy', 'uniform-answers']}
+            'solvers': ['MD', 'RDA', 'IG'], 'zeros': ['none', 'one cell'], 'inputs': ['noisy', 'uniform-answers'], 'md_fixed_step': 'L2 and L1 metric, step 5/50 (2/20) over total^2, iterations 1/3/10'}
 
 
 # 4-attribute structures whose junction tree branches (the depth-first clique order backtracks)
@@ -105,7 +105,7 @@ def coherence_failures(model, attrs, sizes, maxlen=2, tol_r=1e-7, tol_a=1e-9):
     return fails
 
 
-def run_one(si, total, engine, iters, zero, kind, seed):
+def run_one(si, total, engine, iters, zero, kind, seed, opt=None):
     from mbi import Domain, FactoredInference
     M.deterministic_eigsh()
     attrs, sizes = M.ATTRS3, M.SIZES3
@@ -120,9 +120,14 @@ def run_one(si, total, engine, iters, zero, kind, seed):
     if zero and struct:
         cl = max(struct, key=len)
         zeros = {tuple(cl): [tuple([0] * len(cl))]}
-    eng = FactoredInference(Domain(attrs, sizes), iters=iters, structural_zeros=zeros)
+    eng = FactoredInference(Domain(attrs, sizes), iters=iters, structural_zeros=zeros, metric=(opt[0] if opt else 'L2'))
     with M.quiet():
-        model = eng.estimate(prob.fresh_measurements(), total=total, engine=engine)
+        if opt:
+            # mirror descent with a fixed step size (no line search; the only way to use the L1 metric): iterates are not monotone
+            T_ = total if total is not None else 41.0
+            model = eng.estimate(prob.fresh_measurements(), total=total, engine=engine, options={'stepsize': opt[1] / T_ ** 2})
+        else:
+            model = eng.estimate(prob.fresh_measurements(), total=total, engine=engine)
     if model is not eng.model:
         return struct, [('return', 'estimate did not return engine.model')]
     fails = coherence_failures(model, attrs, sizes)
@@ -156,12 +161,23 @@ def run_job(job):
         for kd in sorted({k for k, _ in fails}):
             acc.violate(dict(case, struct=[list(c) for c in struct]), {'kind': kd, 'engine': engine, 'empty': len(struct) == 0, 'param_runaway': LAST_RUNAWAY},
                         'structure %r %s: %s' % (struct, case, '; '.join(m for k, m in fails if k == kd)[:600]))
+    # fixed-step mirror descent (L2 and L1 metric)
+    for total, iters, opt in itertools.product([1.0, 37.5, None], [1, 3, 10], [('L2', 5.0), ('L2', 50.0), ('L1', 2.0), ('L1', 20.0)]):
+        if si == 0:
+            continue
+        case = {'si': si, 'total': total, 'engine': 'MD', 'iters': iters, 'zero': False, 'kind': 'noisy', 'seed': job['seed'], 'opt': list(opt)}
+        struct, fails = run_one(si, total, 'MD', iters, False, 'noisy', job['seed'], opt=opt)
+        acc.case(dict(case, struct=struct), nontrivial=len(struct) >= 2)
+        acc.outcome('MD-fixed-step:%s' % ('ok' if not fails else 'FAIL'))
+        for kd in sorted({k for k, _ in fails}):
+            acc.violate(dict(case, struct=[list(c) for c in struct]), {'kind': kd, 'engine': 'MD', 'empty': False, 'param_runaway': LAST_RUNAWAY, 'fixed_step': True},
+                        'structure %r %s: %s' % (struct, case, '; '.join(m for k, m in fails if k == kd)[:600]))
     acc.sample(dict(case, struct=[list(c) for c in struct]))
     return acc
 
 
 def replay(case):
-    struct, fails = run_one(case['si'], case['total'], case['engine'], case['iters'], case['zero'], case['kind'], case['seed'])
+    struct, fails = run_one(case['si'], case['total'], case['engine'], case['iters'], case['zero'], case['kind'], case['seed'], opt=tuple(case['opt']) if case.get('opt') else None)
     for k, m in fails:
         print(k, m)
     return [{'key': {'kind': k, 'engine': case['engine']}, 'msg': m} for k, m in fails]
